@@ -50,7 +50,10 @@ def rows_canon(d, rng):
 def check_C11():
     q = tier() == "quick"
     sizes = {"int": 50, "float": 40, "string": 80, "any": 30} if q else {"int": 300, "float": 200, "string": None, "any": None}
+    # strings: the slice with the idempotent custom sanitizer in every position among the built-ins (quick tier;
+    # the thorough slice has all three custom functions)
     return run_direct_property("C11", None, sizes, 0, False, rows_fn=rows_canon, extra_mc=(("MC_HistoryStr", "MC_HistoryStr.cfg"),),
+                               cfg_override={"string": "MC_ValueStr_c11.cfg"} if q else None,
                                evidence_extra={"chains": "constructor, TryFrom, Display->FromStr, Serialize->Deserialize (JSON, RON, MessagePack) re-entered with every obtained value; "
                                                "TLC demands the constructor's declarative outcome and, for built-in/idempotent sanitizers, the same value again"})
 
